@@ -253,3 +253,5 @@ Definition gterm_to_var (t : gterm) : option var :=
   | GSym (SVar x) => Some (mkvar x SSymbol)
   | _ => None
   end.
+
+(* EXTRACT: user_guide specification formula_eqb free_variables variables predicates symbols function_constants conjoin disjoin universal_closure theory_predicates var_to_gterm gterm_to_var *)
